@@ -7,6 +7,9 @@ import tempfile
 from . import env
 
 
+LONG_NAME = 'L' * 300      # a directory name longer than NAME_MAX: mkdir fails with ENAMETOOLONG
+
+
 class Sandbox:
     def __init__(self):
         self.top = tempfile.mkdtemp(prefix='fbv_', dir=env.SCRATCH_BASE)
@@ -20,10 +23,10 @@ class Sandbox:
         self._saved = 0
 
     def ap(self, rel):
-        return os.path.join(self.R, rel) if rel else self.R
+        return os.path.join(self.R, rel.replace('@LONG', LONG_NAME)) if rel else self.R
 
     def rel(self, p):
-        return os.path.relpath(p, self.R)
+        return os.path.relpath(p, self.R).replace(LONG_NAME, '@LONG')
 
     def close(self):
         tempfile.tempdir = self._old_tempdir
